@@ -297,6 +297,29 @@ func runC09(c *Ctx) error {
 			map[string]interface{}{"kind": "default-capacity", "ops": len(ops)}, "default-cap")
 		w.Count("default.capacity")
 	}
+	// a requested capacity above the default one is honoured too: more live keys than lruSize, then continuous eviction
+	for _, cp := range []int{513, 700} {
+		n := 2 * cp
+		ops := make([]lruOp, 0, 2*n)
+		for k := 0; k < n; k++ {
+			ops = append(ops, lruOp{0, (k * 7) % (cp + 90), k%9 + 1})
+			if k%4 == 0 {
+				ops = append(ops, lruOp{1, (k * 3) % (cp + 90), 0})
+			}
+			if k%97 == 0 {
+				ops = append(ops, lruOp{3, 0, 0})
+			}
+		}
+		ops = append(ops, lruOp{3, 0, 0})
+		codes := make([]int64, len(ops))
+		for j, o := range ops {
+			codes[j] = int64(o.kind*1000000 + o.k*100 + o.v)
+		}
+		o, lg, d := runLRU(valid.NewLRU(cp), ops)
+		w.Add(fmt.Sprintf("CRun (Some %d%%Z) %s %s %s %s", cp, zlist(codes), zlist(o), zlist(lg), zlist(d)),
+			map[string]interface{}{"kind": "large-capacity", "cap": cp, "ops": len(ops)}, fmt.Sprintf("large-cap:%d", cp))
+		w.Count("large.capacity")
+	}
 	if len(lruPanics) > 0 {
 		var vs []interface{}
 		for i, p := range lruPanics {
